@@ -11,13 +11,14 @@ tvars == <<rpvars, tid, l>>
 
 Traces == JsonDeserialize(IOEnv.TRACE_FILE)
 Prop == IOEnv.PROP                      \* which property's envelope is being decided
+Source == IOEnv.VERIF_SRC                \* "gen" (generated forms) | "suite" (recorded from the repository's tests)
 T == Traces[tid]
 Ev == T[l]
 
 Check(name, cond) == IF cond THEN TRUE ELSE (PrintT(<<"AT", tid, l, name>>) /\ FALSE)
 
 ConvCfg(c) == [lists |-> ToSet(c.lists), formname |-> c.formname, omitid |-> c.omitid,
-               iname |-> c.iname, entity |-> c.entity]
+               iname |-> c.iname, entity |-> c.entity, entlabel |-> c.entlabel]
 
 TInit == /\ tid \in 1..Len(Traces)
          /\ l = 2
@@ -247,7 +248,8 @@ TEnd == /\ l <= Len(T) /\ Ev.ev = "end"
         \* a form the specification accepts must not be refused (the generated forms stay inside the modelled fragment)
         \* (only for the goal-directed generators of valid forms; the collision and error alphabets of C02 / C17 contain
         \*  refusals the specification does not transcribe, e.g. a question named like the form)
-        /\ Check("valid_form_accepted", (outcome.status = "done" /\ Prop \in {"C03", "C04", "C05", "C10"}) => Ev.status = "ok")
+        \*  Source = "suite": executions recorded from the repository's own tests, which include refusals outside the model)
+        /\ Check("valid_form_accepted", (outcome.status = "done" /\ Prop \in {"C03", "C04", "C05", "C10"} /\ Source # "suite") => Ev.status = "ok")
         /\ (Prop = "C17" => C17Env)
         /\ (Ev.status = "ok" =>
               /\ (Prop = "C04" => C04Env)
